@@ -24,7 +24,15 @@ Oracle (from the statement):
                     of the handler holds
   dispatch_overlap  a client's next command is not handed to its handler before the previous handler returned
   trigger_event     a dispatched `trigger` posts exactly that event with exactly those parameters, in order
-  crash             no legal message sequence makes an exception reach the loop (MPF would stop)
+  crash             no message sequence makes an exception reach the loop (MPF would stop)
+
+Round 2 additions:
+  * garbage lines (a minority input class: broken JSON, '&bytes=' without a size, not UTF-8, ...) are mixed into the
+    stream; they are outside the codec claim and never dispatched, but the receiver has to survive them and
+    deliver the neighbouring messages unchanged (rule crash, sig ...:garbage_line).
+  * the parameter name `client` collides with the name under which the dispatcher passes the sending client to
+    every handler.  Allowed outcomes for such a message: delivered unchanged, or refused with a BCP `error` reply
+    naming the command (then nothing is dispatched for it).  Anything else (MPF stops, silently dropped) is a violation.
 """
 import asyncio
 
@@ -46,7 +54,8 @@ PROBES = ["cut_in_line", "cut_before_nl", "cut_after_nl_before_payload", "cut_in
           "one_byte_chunks", "all_at_once", "payload_msg", "payload_with_newline", "payload_with_marker",
           "big_payload", "json_form", "json_form_with_payload", "hello_in_stream", "unknown_cmd_in_stream",
           "trigger_dispatched", "eof_after_stream", "multi_client", "handler_hold", "bad_class_run",
-          "same_callback_chunks", "stall_between_chunks", "codec_checked", "debug_logging", "trigger_with_callback"]
+          "same_callback_chunks", "stall_between_chunks", "codec_checked", "debug_logging", "trigger_with_callback", "garbage_line_in_stream",
+          "refused_with_error_reply"]
 REAL = ["mpf.core.bcp.bcp_socket_client.BCPClientSocket (read_message, _process_command, send, hello)",
         "mpf.core.bcp.bcp_socket_client.encode_command_string/decode_command_string",
         "mpf.core.bcp.bcp_transport.BcpTransportManager (_receive_loop, register/unregister)",
@@ -63,6 +72,7 @@ ASSUMPTIONS = ["command names are BCP-style identifiers ([a-z0-9_]+); parameter 
                "a line is shorter than the StreamReader limit (64 KiB, asyncio default as used by open_connection)",
                "payload framing as sent by the media controller: '<line>&bytes=<n>\\n' followed by n >= 1 raw bytes",
                "the connection is closed (EOF) only after a complete message",
+               "garbage lines end with a newline and do not contain a well-formed '&bytes=<n>' (stream position stays known)",
                "call_soon FIFO order is kept (asyncio guarantees it)"]
 STATE_ABSTRACTION = "(chunking mode, kind of cut preceding the chunk, receiver busy in a handler, chunk completes a message)"
 
@@ -145,6 +155,8 @@ def _gen_bad_op(ch, bad):
         kw["k0"] = _safe_scalar(ch)
     elif bad == "key_client":
         kw["client"] = _safe_scalar(ch)
+    elif bad == "garbage_line":
+        return {"cmd": "<garbage>", "kw": {}, "payload": None, "hold": 0.0, "raw": ch.pick("bad.raw", H.GARBAGE_LINES)}
     return {"cmd": cmd, "kw": kw, "payload": None, "hold": 0.0}
 
 
@@ -361,6 +373,7 @@ class _Client:
         self.next = 0            # number of messages dispatched so far
         self.in_handler = None   # index of the message whose handler is running
         self.failed_in = None    # index of the message whose handler raised
+        self.rejected = {}       # cmd -> number of messages accounted for by an `error` reply
         self.chunks = []
         self.ci = 0
         self.fed_done = False
@@ -409,6 +422,12 @@ def execute(ctx, plan):
     ref = []        # messages that must be dispatched, in order: dict(op index, cmd, kwargs, hold)
     for i, op in enumerate(ops):
         cmd, kw = op["cmd"], op["kw"]
+        if op.get("raw") is not None:
+            # a line no encoder produces: not part of the codec claim, never dispatched, must be survived
+            ctx.probe("garbage_line_in_stream")
+            ctx.log("garbage", i, op["raw"])
+            msgs.append({"line": op["raw"].encode("latin-1"), "payload": None, "op": i})
+            continue
         payload = op["payload"].encode("latin-1") if op.get("payload") else None
         try:
             line = encode_command_string(cmd, **kw)
@@ -458,9 +477,13 @@ def execute(ctx, plan):
             exp = None
         if exp is not None and payload:
             exp["rawbytes"] = payload
-        ref.append({"op": i, "cmd": cmd, "kwargs": exp, "hold": op.get("hold") or 0.0})
+        # `client` is the name under which the dispatcher hands the sending client to every command handler: a
+        # parameter of that name cannot be delivered.  Allowed outcomes: delivered unchanged, or refused with a
+        # BCP `error` reply naming the command (and nothing dispatched).  Stopping MPF is not allowed.
+        ref.append({"op": i, "cmd": cmd, "kwargs": exp, "hold": op.get("hold") or 0.0,
+                    "may_reject": "client" in kw})
     st["ref"] = ref
-    if plan.get("bad") or any(H.bad_classes(op["kw"]) for op in ops):
+    if plan.get("bad") or any(H.op_classes(op) for op in ops):
         ctx.probe("bad_class_run")
 
     # ---- boot ------------------------------------------------------------------------------
@@ -497,10 +520,35 @@ def execute(ctx, plan):
     # ---- observation: command handlers -----------------------------------------------------
     pending_triggers = []       # (event name, kwargs) dispatched to the real trigger handler, event not yet seen
 
+    def error_replies(c, cmd):
+        n = 0
+        for line in c.obj._sender.lines:
+            if line.startswith(b"error?"):
+                try:
+                    if decode_command_string(line[:-1].decode())[1].get("cmd") == cmd:
+                        n += 1
+                except Exception:      # pylint: disable=broad-except
+                    pass
+        return n
+
+    def skip_rejected(c, cmd=None, kwargs=None):
+        """Step over messages the dispatcher refused with an `error` reply (only those it is allowed to refuse)."""
+        while c.next < len(ref) and ref[c.next]["may_reject"]:
+            r = ref[c.next]
+            if cmd is not None and r["kwargs"] is not None and cmd == r["cmd"] and H.typed_eq(kwargs, r["kwargs"]):
+                break                                   # delivered after all
+            if c.rejected.get(r["cmd"], 0) >= error_replies(c, r["cmd"]):
+                break                                   # no error reply accounts for it
+            c.rejected[r["cmd"]] = c.rejected.get(r["cmd"], 0) + 1
+            ctx.log("rejected", c.name, c.next, r["cmd"], t=loop.time())
+            ctx.probe("refused_with_error_reply")
+            c.next += 1
+        return c.next
+
     def on_dispatch(client, cmd, kwargs):
         c = by_obj[client.name]
         now = loop.time()
-        i = c.next
+        i = skip_rejected(c, cmd, kwargs)
         ctx.log("dispatch", c.name, i, cmd, H.short(kwargs, 200), t=now)
         if c.in_handler is not None:
             ctx.violation("dispatch_overlap", "overlap", "client %s: message %d (%s) handed to its handler at %.6f "
@@ -659,6 +707,7 @@ def execute(ctx, plan):
     # ---- end-of-stream checks ------------------------------------------------------------------
     undecodable = [r for r in ref if r["kwargs"] is None]
     for c in clients:
+        skip_rejected(c)
         ctx.log("end", c.name, c.next, len(ref), t=loop.time())
         if c.next < len(ref) and not undecodable:
             buf = len(c.obj._receiver._buffer)
@@ -727,11 +776,11 @@ def on_crash(ctx, crash):
             hi = ref[n]["op"] if n < len(ref) else len(ops) - 1
         window = "%d..%d" % (lo, hi) if lo <= hi else "none (all %d messages were consumed)" % len(ops)
         for op in ops[lo:hi + 1]:
-            classes.update(H.bad_classes(op["kw"]))
+            classes.update(H.op_classes(op))
     sig = "%s:%s:%s" % (type(exc).__name__, func, "+".join(sorted(classes)) or "clean")
     msg = ("%r reached the event loop (MPF stops) in %s; receive loop of client %s (chunking %s) after %s dispatched "
            "messages, while processing message(s) %s: %s"
            % (exc, func, culprit.name if culprit else "?", culprit.spec["mode"] if culprit else "?",
               culprit.next if culprit else "?", window,
-              H.short([(o["cmd"], o["kw"]) for o in ops[lo:hi + 1]] if culprit is not None else None, 500)))
+              H.short([(o["cmd"], o.get("raw") or o["kw"]) for o in ops[lo:hi + 1]] if culprit is not None else None, 500)))
     return "crash", sig, msg
